@@ -321,7 +321,8 @@ fn apply_field_operations(base_expr: &TokenStream, operation: &FieldOperation) -
             quote_spanned! { *span=> #base_expr.#name }
         }
         FieldOperation::UnnamedField { index, span } => {
-            let idx = syn::Index::from(*index);
+            let mut idx = syn::Index::from(*index);
+            idx.span = *span;
             quote_spanned! { *span=> #base_expr.#idx }
         }
         FieldOperation::Index { index, span } => {
